@@ -154,7 +154,10 @@ class Interp:
 
         def read(v):
             if isinstance(v, jex_core.Literal):
-                return _wrap(np.asarray(v.val))
+                try:  # literals carry the value at the precision of their aval (weak-typed python floats are rounded by XLA)
+                    return _wrap(np.asarray(v.val, dtype=v.aval.dtype))
+                except Exception:
+                    return _wrap(np.asarray(v.val))
             return env[v]
 
         assert len(jaxpr.constvars) == len(consts), (len(jaxpr.constvars), len(consts))
@@ -293,6 +296,9 @@ class Interp:
         src = _kind(eqn.invars[0].aval.dtype)
         dst = _kind(eqn.params["new_dtype"])
         if src == dst:
+            if dst == "float" and np.dtype(eqn.params["new_dtype"]) == np.float32:
+                # concrete constants are rounded to the target precision exactly as XLA does; symbolic values are reals
+                return _v1(lambda e: Fraction(float(np.float32(float(e)))) if isinstance(e, Fraction) else e)(x)
             return x
         return _v1(_cast_elem(dst))(x)
 
@@ -1001,10 +1007,21 @@ def _h_uniform(self, eqn, key, lo, hi):
     return vec(lambda a, b, x: s_max(a, s_add(s_mul(x, s_sub(b, a)), a)), 3)(lo_b, hi_b, u)
 
 
+def _per_key(self, kind, key, out_shape):
+    """noise for a (possibly batched, e.g. vmapped) key array: one independent block per key."""
+    if key.shape == ():
+        return _noise_reals(self, kind, key[()], out_shape)
+    per = tuple(out_shape[len(key.shape):])
+    out = np.empty(tuple(out_shape), dtype=object)
+    for idx in np.ndindex(*key.shape):
+        out[idx] = _noise_reals(self, kind, key[idx], per) if per else _noise_reals(self, kind, key[idx], ())[()]
+    return out
+
+
 def _h_normal(self, eqn, key):
     if self.ctx.numeric:
         return _concrete_call(self, eqn, (key,))
-    return _noise_reals(self, "normal", key[()], eqn.outvars[0].aval.shape)
+    return _per_key(self, "normal", key, eqn.outvars[0].aval.shape)
 
 
 def _h_gumbel(self, eqn, key, *rest):
